@@ -8,8 +8,6 @@ from functools import partial
 from typing import TYPE_CHECKING
 
 # Third Party Imports
-from numpy import array
-from numpy import max as np_max
 from numpy import finfo, ones_like, spacing, zeros
 from scipy.integrate import solve_ivp
 
@@ -304,18 +302,25 @@ class Celestial(Dynamics, metaclass=ABCMeta):
             states = states.reshape((*state_shape, n_t)).copy()
 
             # Retrieve time when integration stopped, should auto-exit the loop if fully-integrated
-            if array(solution.t_events).size == 0:
+            # [NOTE]: `t_events` / `y_events` hold one array per event, of different lengths as soon as only some
+            #   of several events fired, so they are inspected per event rather than stacked into one array.
+            fired = [
+                (event_times[-1], event_states[-1])
+                for event_times, event_states in zip(solution.t_events or (), solution.y_events or ())
+                if len(event_times) > 0
+            ]
+            if not fired:
                 current_time = solution.t[-1]
                 # print(states.shape, states[...,-1].shape, states[::,-1].shape)
                 current_state = states[..., -1]  # .reshape(state_shape)
             else:
-                # Retrieve the current state & update the initial state for next loop
-                current_time = np_max(solution.t_events)
+                # Retrieve the current state & update the initial state for next loop: the integration
+                # stopped at the latest reported event time, in the state reported for that event
+                current_time, stop_state = max(fired, key=lambda item: item[0])
                 current_state = self._applyEvents(
                     t_events=solution.t_events,
                     events=events,
-                    # [TODO]: Make this more robust. What about multiple events?
-                    current_state=solution.y_events[0].reshape(state_shape),
+                    current_state=stop_state.reshape(state_shape),
                 )
 
                 # Properly copies updated state back into full state vector for when
